@@ -466,7 +466,12 @@ func genLocator(repo string) (text string, err error) {
 		if gd, ok := d.(*ast.GenDecl); ok && gd.Tok == token.TYPE {
 			for _, sp := range gd.Specs {
 				ts := sp.(*ast.TypeSpec)
-				if ts.Name.Name == "Locator" && typesExprString(ts.Type) != "func(seq Sequence) Regions" {
+				if ts.Name.Name != "Locator" {
+					continue
+				}
+				ft, ok := ts.Type.(*ast.FuncType)
+				if !ok || len(ft.Params.List) != 1 || len(ft.Params.List[0].Names) > 1 || exprString(ft.Params.List[0].Type) != "Sequence" ||
+					ft.Results == nil || len(ft.Results.List) != 1 || exprString(ft.Results.List[0].Type) != "Regions" {
 					refuse("type Locator is %s", typesExprString(ts.Type))
 				}
 			}
